@@ -689,6 +689,27 @@ func (c *Ctx) checkUnconditionalImport(imp *ssa.Function, minN int) {
 			fl = append(fl, f)
 		}
 		sort.Strings(fl)
+		// the setter itself stores on every path: a guard inside it (e.g. "only if larger than what is stored")
+		// makes the restore depend on what the store holds while the import is running
+		if bad == "" {
+			for _, callee := range p.Callees(site) {
+				if callee.Blocks == nil || len(callee.Blocks) < 2 {
+					continue
+				}
+				var sets []ssa.Instruction
+				for _, op := range p.StoreOps(callee) {
+					if op.Op == "Set" && c.prefixName(op) == prefix {
+						sets = append(sets, op.Site.(ssa.Instruction))
+					}
+				}
+				if len(sets) == 0 || len(callee.Blocks[0].Instrs) == 0 {
+					continue
+				}
+				if okAll, ret := ana.MustPassBefore(callee.Blocks[0].Instrs[0], sets, false); !okAll && ret != nil {
+					bad = c.pos(ret) + " [inside " + fname(callee) + ": a return is reachable without the write]"
+				}
+			}
+		}
 		r.Check(bad == "", "C15.faithful-import", "unconditional:"+prefix+"<-"+strings.Join(fl, "+"), c.pos(in), "restored unconditionally (range loops, own nil test and validation panics only)",
 			"the import of "+strings.Join(fl, "+")+" into "+prefix+" depends on the condition at "+bad+": for some exported states the value is silently not restored")
 	})
